@@ -270,6 +270,11 @@ impl Pool {
 /// (non-preemptive default), else the lowest enabled thread
 #[cfg(feature = "hooks")]
 pub fn run_schedule(pool: &Pool, mk: &Mk, cx: &Conc, universe: &[Vec<String>], progs: &Arc<Vec<Vec<Call>>>, prefix: &[usize]) -> Exec {
+    run_schedule_w(pool, mk, cx, universe, progs, prefix, Duration::from_secs(3))
+}
+
+/// `watchdog`: how long no thread may make progress before the schedule counts as stuck
+pub fn run_schedule_w(pool: &Pool, mk: &Mk, cx: &Conc, universe: &[Vec<String>], progs: &Arc<Vec<Vec<Call>>>, prefix: &[usize], watchdog: Duration) -> Exec {
     let w = mk();
     let root = w.root.clone();
     let n = progs.len();
@@ -291,7 +296,7 @@ pub fn run_schedule(pool: &Pool, mk: &Mk, cx: &Conc, universe: &[Vec<String>], p
             if quiescent {
                 break;
             }
-            let (g, to) = coop.main_cv.wait_timeout(st, Duration::from_secs(3)).unwrap();
+            let (g, to) = coop.main_cv.wait_timeout(st, watchdog).unwrap();
             st = g;
             if to.timed_out() {
                 let quiescent = st.running.is_none() && (0..n).all(|t| st.finished[t] || st.parked.contains_key(&t));
@@ -333,6 +338,8 @@ pub struct Explored {
     pub histories: BTreeMap<String, (Vec<Vec<String>>, Value, Vec<usize>, bool)>, // key -> (results, final, example schedule, stuck)
     pub max_yields: usize,
     pub truncated: bool,
+    /// watchdog expiries that did not reproduce (machine load), see explore()
+    pub spurious_watchdog: usize,
 }
 
 /// stateless DFS over schedules; `max_preempt` = None explores every interleaving at yield-point granularity
@@ -340,15 +347,34 @@ pub struct Explored {
 pub fn explore(mk: &Mk, cx: &Conc, universe: &[Vec<String>], progs: Vec<Vec<Call>>, max_preempt: Option<usize>, max_schedules: usize) -> Explored {
     let progs = Arc::new(progs);
     let mut pool = Pool::new(progs.len());
-    let mut out = Explored { schedules: 0, histories: BTreeMap::new(), max_yields: 0, truncated: false };
+    let mut out = Explored { schedules: 0, histories: BTreeMap::new(), max_yields: 0, truncated: false, spurious_watchdog: 0 };
     let mut stack: Vec<Vec<usize>> = vec![vec![]];
     while let Some(prefix) = stack.pop() {
         if out.schedules >= max_schedules {
             out.truncated = true;
             break;
         }
-        let ex = run_schedule(&pool, mk, cx, universe, &progs, &prefix);
+        let mut ex = run_schedule(&pool, mk, cx, universe, &progs, &prefix);
         out.schedules += 1;
+        if ex.stuck {
+            // A watchdog expiry is only a SUSPICION (on an oversubscribed machine a runnable thread can be kept off
+            // the CPU for seconds).  A deadlock is a property of the schedule: it must reproduce.  The same schedule
+            // is run again on fresh workers with a ten times longer watchdog; only if it is stuck both times it counts.
+            let sched: Vec<usize> = ex.trace.iter().map(|x| x.0).collect();
+            let mut confirmed = true;
+            for _ in 0..2 {
+                std::mem::forget(std::mem::replace(&mut pool, Pool::new(progs.len())));
+                let again = run_schedule_w(&pool, mk, cx, universe, &progs, &sched, Duration::from_secs(30));
+                if !again.stuck {
+                    confirmed = false;
+                    ex = again;
+                    break;
+                }
+            }
+            if !confirmed {
+                out.spurious_watchdog += 1;
+            }
+        }
         if ex.stuck {
             // leak the blocked workers; one deadlocked schedule per program is enough evidence
             std::mem::forget(std::mem::replace(&mut pool, Pool::new(progs.len())));
